@@ -13,7 +13,7 @@ import statsmodels.formula.api as smf
 import gen
 from common import fx, unfx, rq, enc_list, close
 
-REQUIRED = ['iptw_weight_spec', 'smr_is_odds', 'iptw_bounded_spec', 'outcome_ipmw_spec', 'stoch_numer',
+REQUIRED = ['iptw_weight_spec', 'smr_is_odds', 'iptw_bounded_spec', 'iptw_bound_collection_spec', 'outcome_ipmw_spec', 'stoch_numer',
             'stoch_weight_spec', 'ipmw_monotone', 'ipmw_unobserved_none', 'ipmw_fit_sets', 'ipmw_uniform_collapse',
             'ipmw_recovers_n', 'ipcw_cumprod', 'ipcw_time_order', 'ipcw_subject_local', 'sort_sorted_perm',
             'uncensored_char', 'flat_uncensored_char',
@@ -34,7 +34,13 @@ RULE = ('IPTW: random data sets (n 150-400) with a 2-3 level categorical, a bina
         'malformed stream (non-monotone rows incl. one confined to the first row, a variable without NaN); IPCW: long '
         'person-period tables (10-60 subjects, 2-7 unit intervals, fractional last interval, administrative censoring '
         'at the maximum time) given sorted and shuffled with default and non-default index labels, and flat tables '
-        'through _dataprep.  distinct = (frame hash, class, options); non-trivial = weights are not all equal and, for '
+        'through _dataprep; every documented spelling of `bound` for treatment_model / missing_model (tuple, a limit of '
+        'exactly 0 or 1 as float and as int, collections of 3-4 entries with trailing entries above / below / between the '
+        'limits or equal to 0, numpy.float64 scalars, equal limits, [0, 1], the falsy 0.0) with limits drawn from the data '
+        'set\'s own fitted probabilities, x target x stabilization; data sets of ordinary cohort size, regenerated from a '
+        'stored recipe on replay: one long IPCW table of 3000-4000 subjects (>= 10^4 person-period rows, product of all '
+        'fitted probabilities below the smallest double), one IPTW and one IPMW data set of 4000-9000 rows (more and '
+        'larger in the thorough tier).  distinct = (frame hash, class, options); non-trivial = weights are not all equal and, for '
         'bounded cells, at least one prediction is actually clipped / for IPMW at least two fitted factors or a '
         'collapsed uniform pair / for IPCW at least one subject censored before the maximum time')
 ASSUMPTIONS = ['statsmodels GLM (Binomial, logit, optional freq_weights) returns the maximum-likelihood fit: measured on a '
@@ -123,6 +129,73 @@ def bound_kw(bound):
     return {'lo': fx(lo), 'hi': fx(hi)}
 
 
+def bound_object(bound, form=None):
+    """the object handed to zEpid as `bound`.  A cell records the bound as JSON-able values (False, a float, or a list of
+    floats whose FIRST TWO entries are the documented limits) plus the spelling `form`, so that a replay hands over the
+    same kind of object: 'tuple' (a tuple), 'npfloat' (numpy.float64 scalar(s)), 'int-ends' (limits equal to 0.0 / 1.0
+    written as the Python ints 0 / 1), None (the values as they are: a float or a list)."""
+    if form in (None, 'plain') or bound is False or bound is None:
+        return bound
+    if form == 'tuple':
+        return tuple(bound)
+    if form == 'npfloat':
+        return np.float64(bound) if isinstance(bound, float) else [np.float64(v) for v in bound]
+    if form == 'int-ends':
+        return [int(v) if v in (0.0, 1.0) else v for v in bound]
+    raise ValueError('unknown bound form %r' % (form,))
+
+
+def bound_kind(bound, form):
+    """label of a spelling for the input-distribution counters"""
+    if not bound:
+        return 'falsy-float' if bound == 0.0 and bound is not False else 'none'
+    if isinstance(bound, float):
+        return 'float' + ('/' + form if form else '')
+    k = 'pair' if len(bound) == 2 else 'longer(%d)' % len(bound)
+    k += '/lower=0' if bound[0] == 0.0 else ''
+    k += '/upper=1' if bound[1] == 1.0 else ''
+    k += '/equal' if bound[0] == bound[1] else ''
+    k += '/zero-in-tail' if any(v == 0.0 for v in bound[2:]) else ''
+    return k + '/' + (form or 'list')
+
+
+def bound_spec(bobj):
+    """(spec, falsy) of a bound object for the Lean model (`Bounds.BoundSpec`, `Bounds.estimatorBound`): `falsy` is
+    Python's own truth value of the object (the documented default False, and 0.0, mean no truncation)."""
+    if not bobj:
+        return 'other', 1
+    if isinstance(bobj, float):
+        return 'float:' + fx(float(bobj)), 0
+    return 'seq:' + ';'.join(fx(float(v)) for v in bobj), 0
+
+
+def bound_forms(rng, p_raw):
+    """the family of documented spellings of `bound` ("a single float assumes symmetric truncation, a collection of floats
+    can be provided for asymmetric truncation"; probability_bounds: "only the first two specified bounds are used"),
+    with limits drawn inside the range of the data set's own fitted probabilities so that each limit that is not 0 / 1
+    actually truncates something: tuples, one-sided truncation (a limit of exactly 0 or exactly 1, as float and as
+    int), collections longer than two entries (trailing entries above, below and between the limits), numpy float
+    scalars, equal limits, the no-op pair [0, 1] and the falsy float 0.0.  -> list of (values, form)"""
+    q = np.quantile(np.asarray(p_raw, dtype=float), [0.12, 0.35, 0.65, 0.88])
+    lo = float(np.round(rng.uniform(q[0], q[1]), 2))
+    hi = float(np.round(rng.uniform(q[2], q[3]), 2))
+    lo, hi = min(max(lo, 0.02), 0.9), min(max(hi, 0.1), 0.98)
+    if not lo < hi:
+        lo, hi = 0.3, 0.7
+    above = float(np.round(rng.uniform(hi, 1.0), 2))
+    below = float(np.round(rng.uniform(0.0, lo), 2))
+    between = float(np.round(rng.uniform(lo, hi), 2))
+    mid = float(np.round(rng.uniform(lo, hi), 2))
+    sym = float(np.round(min(lo, 1 - hi, 0.45), 2)) or 0.05
+    return [([lo, hi], 'tuple'),
+            ([0.0, hi], None), ([0.0, hi], 'tuple'), ([0.0, hi], 'int-ends'),
+            ([lo, 1.0], None), ([lo, 1.0], 'int-ends'),
+            ([lo, hi, above], None), ([lo, hi, below], 'tuple'), ([lo, hi, between, above], None),
+            ([0.0, hi, above, below], 'tuple'), ([lo, hi, 0.0], None), ([lo, hi, 1.0, 0.5], 'int-ends'),
+            ([lo, hi], 'npfloat'), (sym, 'npfloat'),
+            ([mid, mid], None), ([0.0, 1.0], None), ([0.0, 1.0], 'int-ends'), (0.0, None)]
+
+
 def frame_hash(df):
     return hash(df.to_csv())
 
@@ -145,10 +218,11 @@ def guard(chk, kind, cfg, rec, fn, *args):
 
 
 # ------------------------------------------------------------------------------------------- IPTW
-def mixed_dataset(rng, missing=False, prevalence=None):
+def mixed_dataset(rng, missing=False, prevalence=None, n=None):
     """prevalence: None (around 0.45) | 'low' (Pr(A=1) about 0.08) | 'high' (about 0.92): rare / near-universal treatment,
     so that a marginal numerator probability falls outside ordinary truncation bounds"""
-    n = int(rng.integers(150, 400)) if prevalence is None else int(rng.integers(400, 700))
+    if n is None:
+        n = int(rng.integers(150, 400)) if prevalence is None else int(rng.integers(400, 700))
     k1 = int(rng.integers(2, 4))
     L1 = rng.integers(0, k1, size=n)
     L2 = rng.integers(0, 2, size=n)
@@ -199,12 +273,16 @@ def iptw_cell(chk, drv, df, cfg, refs, dsid, rec):
     p, q = clip(p_raw, bound), clip(q_raw, bound)
     clipped = bool(np.any(p != p_raw))
     cols = ['L1', 'L2', 'x', 'A', 'Y'] + ([wcol] if wcol else [])
-    if cfg.get('positional'):
-        ipt = IPTW(df[cols], 'A', 'Y', wcol, tgt)
-        ipt.treatment_model(denom, numer, stab, bound, False)
-    else:
-        ipt = IPTW(df[cols], treatment='A', outcome='Y', weights=wcol, standardize=tgt)
-        ipt.treatment_model(denom, model_numerator=numer, stabilized=stab, bound=bound, print_results=False)
+    form = cfg.get('bound_form')
+    bobj = bound_object(bound, form)        # the spelling of the bound handed over (tuple, numpy scalars, ints 0 / 1, ...)
+    with warnings.catch_warnings():
+        warnings.simplefilter('ignore')     # "only the first two specified bounds are used" (documented, longer collections)
+        if cfg.get('positional'):
+            ipt = IPTW(df[cols], 'A', 'Y', wcol, tgt)
+            ipt.treatment_model(denom, numer, stab, bobj, False)
+        else:
+            ipt = IPTW(df[cols], treatment='A', outcome='Y', weights=wcol, standardize=tgt)
+            ipt.treatment_model(denom, model_numerator=numer, stabilized=stab, bound=bobj, print_results=False)
     got = np.asarray(ipt.iptw, dtype=float)
     want = iptw_documented(df['A'].values, p, q, stab, tgt)
     nontriv = len(set(np.round(got, 9))) > 2 and (clipped or not bound)
@@ -213,6 +291,8 @@ def iptw_cell(chk, drv, df, cfg, refs, dsid, rec):
     chk.count('IPTW/%s/%s/num=%s/bound=%s%s' % (tgt, 'stab' if stab else 'unstab', numer if stab else '-',
                                                  'none' if not bound else ('sym' if isinstance(bound, float) else 'asym'),
                                                  '/w' if wcol else ''))
+    if 'bound_kind' in cfg:
+        chk.count('IPTW/bound-form/%s%s' % (cfg['bound_kind'], '/truncating' if clipped else ''))
     case['impl_head'] = got[:6].tolist()
     chk.d(allclose(got, want, **TOLD), 'IPTW.iptw = documented weight formula at the ML predictions (%s, %s)'
           % (tgt, 'stabilized' if stab else 'unstabilized'), dict(case, want_head=want[:6].tolist()))
@@ -233,6 +313,15 @@ def iptw_cell(chk, drv, df, cfg, refs, dsid, rec):
                          **bound_kw(bound))
         chk.k(rep['status'] == 'ok' and allclose(unf_opt(rep['w']), got, **TOLD),
               'IPTW.iptw = Lean bounding + generated formula on the raw reference predictions', dict(case, model=rep.get('status')))
+        if 'bound_kind' in cfg:
+            # K, bound parsing: the model reads the limits out of the collection as it was handed over (`parseBound`:
+            # entries 0 and 1; `estimatorBound`: Python's truth value of the object decides whether anything is truncated)
+            spec, falsy = bound_spec(bobj)
+            rep, _ = drv.ask('iptww', c='f', stab=int(stab), tgt=tgt, a=bits(df['A'].values), n=fxs(q_raw), d=fxs(p_raw),
+                             spec=spec, falsy=falsy)
+            chk.k(rep['status'] == 'ok' and allclose(unf_opt(rep['w']), got, **TOLD),
+                  'IPTW.iptw = Lean bound parsing (entries 0 and 1 of the collection) + bounding + generated formula',
+                  dict(case, model=rep.get('status'), spec=spec))
 
 
 def ipmw_outcome_cell(chk, drv, df, cfg, refs, dsid, rec):
@@ -251,11 +340,17 @@ def ipmw_outcome_cell(chk, drv, df, cfg, refs, dsid, rec):
     want = np.where(d2['R'].values == 1, n_raw / clip(d_raw, bound), np.nan)
     ipt = IPTW(df[['L1', 'L2', 'x', 'A', 'Y'] + ([wcol] if wcol else [])], treatment='A', outcome='Y', weights=wcol)
     ipt.treatment_model('L2 + x', print_results=False)
-    ipt.missing_model(cfg['denominator'], model_numerator=numer, stabilized=stab, bound=bound, print_results=False)
+    bobj = bound_object(bound, cfg.get('bound_form'))
+    with warnings.catch_warnings():
+        warnings.simplefilter('ignore')     # the documented warning about collections longer than two entries
+        ipt.missing_model(cfg['denominator'], model_numerator=numer, stabilized=stab, bound=bobj, print_results=False)
     got = np.asarray(ipt.ipmw, dtype=float)
     chk.case(case, (dsid, 'IPTW.missing', repr(sorted(cfg.items(), key=str))),
              sample={'kind': 'IPTW.missing_model', 'cfg': cfg, 'n': len(df)} if chk.evals % 29 == 0 else None)
     chk.count('IPTW.missing/%s/num=%s/bound=%s%s' % ('stab' if stab else 'unstab', numer, bool(bound), '/w' if wcol else ''))
+    if 'bound_kind' in cfg:
+        chk.count('IPTW.missing/bound-form/%s%s' % (cfg['bound_kind'],
+                                                    '/truncating' if np.any(clip(d_raw, bound) != d_raw) else ''))
     case['impl_head'] = [None if np.isnan(v) else float(v) for v in got[:8]]
     chk.d(allclose(got, want, **TOLD), 'IPTW.ipmw = Pr(observed | numerator) / Pr(observed | A, L) at the ML predictions, '
           'NaN for rows with a missing outcome', case)
@@ -264,6 +359,13 @@ def ipmw_outcome_cell(chk, drv, df, cfg, refs, dsid, rec):
                          **bound_kw(bound))
         chk.k(rep['status'] == 'ok' and allclose(unf_opt(rep['w']), got, **TOLD),
               'IPTW.ipmw = Lean model on the reference predictions', dict(case, model=rep.get('status')))
+        if 'bound_kind' in cfg:
+            spec, falsy = bound_spec(bobj)
+            rep, _ = drv.ask('oipmw', c='f', stab=int(stab), obs=bits(d2['R'].values), n=fxs(n_raw), d=fxs(d_raw),
+                             spec=spec, falsy=falsy)
+            chk.k(rep['status'] == 'ok' and allclose(unf_opt(rep['w']), got, **TOLD),
+                  'IPTW.ipmw = Lean bound parsing (entries 0 and 1 of the collection) + model on the reference predictions',
+                  dict(case, model=rep.get('status'), spec=spec))
 
 
 def expected_iptw(df, spec, refs, wcol, tgt):
@@ -442,6 +544,21 @@ def run_iptw_family(chk, drv, rng, tier):
                         cfg = dict(weights=wcol, standardize=tgt, stabilized=stab, numerator=numer, bound=bound,
                                    denominator=denom, positional=bool(i % 3 == 1))
                         guard(chk, 'IPTW', cfg, rec, iptw_cell, drv, df, cfg, refs, dsid, rec)
+        # every documented spelling of `bound` (limits drawn from this data set's own fitted probabilities) x target x
+        # stabilization; all spellings on every third data set, a rotating third of them on the others (quick tier)
+        m0 = refs('A ~ ' + denom, None)
+        if m0 is not None:
+            forms = bound_forms(rng, np.asarray(m0.predict(df.reset_index(drop=True))))
+            if tier == 'quick' and i % 3 != 0:
+                forms = forms[i % 3::3]
+            for j, (bvals, form) in enumerate(forms):
+                wcol = wopts[(i + j) % 2]
+                for tgt in ('population', 'exposed', 'unexposed'):
+                    for stab, numer in ((False, '1'), (True, '1'), (True, 'C(L1)')):
+                        cfg = dict(weights=wcol, standardize=tgt, stabilized=stab, numerator=numer, bound=bvals,
+                                   bound_form=form, bound_kind=bound_kind(bvals, form), denominator=denom,
+                                   positional=bool((i + j) % 4 == 1))
+                        guard(chk, 'IPTW', cfg, rec, iptw_cell, drv, df, cfg, refs, dsid, rec)
         # stochastic plans
         k1 = int(df['L1'].nunique())
         conds = [["df['L1']==%d" % v for v in range(k1)], ["df['L2']==1", "df['L2']==0"],
@@ -508,6 +625,34 @@ def run_iptw_family(chk, drv, rng, tier):
             cfg = dict(weights=('w' if i % 2 else None), standardize=tgt, stabilized=stab, numerator=numer, bound=bound,
                        denominator='C(L1) + L2 + x', variant='dtypes+labels')
             guard(chk, 'IPTW', cfg, rec, iptw_cell, drv, df, cfg, refs, frame_hash(df), rec)
+    # ordinary cohort size (thousands of rows; regenerated from the stored recipe on replay): the weight of a row is a
+    # function of that row's own fitted probabilities, whatever the number of rows
+    for i in range(1 if tier == 'quick' else 4):
+        gspec = dict(name='mixed', seed=int(rng.integers(0, 2 ** 31 - 1)), n=int(rng.integers(4000, 9000)) * (4 if i == 3 else 1),
+                     missing=bool(i % 2), index=['shuffled', 'default', 'shifted'][i % 3], layout_seed=int(rng.integers(0, 2 ** 31 - 1)))
+        df = from_generator(gspec)
+        rec = {'generator': gspec, 'n': len(df)}
+        cache = {}
+
+        def refs(formula, wcol, df=df.reset_index(drop=True), cache=cache):
+            if (formula, wcol) not in cache:
+                cache[(formula, wcol)] = ref_fit(chk, formula, df, wcol)
+            return cache[(formula, wcol)]
+        m0 = refs('A ~ C(L1) + L2 + x', None)
+        if m0 is None:
+            continue
+        forms = bound_forms(rng, np.asarray(m0.predict(df.reset_index(drop=True))))
+        picks = [(False, None)] + [forms[int(j)] for j in rng.choice(len(forms), size=2, replace=False)]
+        for j, (bvals, form) in enumerate(picks):
+            for tgt in ('population', 'exposed', 'unexposed'):
+                stab, numer = ((True, '1'), (False, '1'), (True, 'C(L1)'))[(i + j + ('population', 'exposed', 'unexposed').index(tgt)) % 3]
+                cfg = dict(weights=[None, 'w', 'wf'][(i + j) % 3], standardize=tgt, stabilized=stab, numerator=numer, bound=bvals,
+                           bound_form=form, bound_kind=bound_kind(bvals, form), denominator='C(L1) + L2 + x', cohort=True)
+                guard(chk, 'IPTW', cfg, rec, iptw_cell, drv, df, cfg, refs, ('mixed', repr(sorted(gspec.items()))), rec)
+        if gspec['missing']:
+            cfg = dict(stabilized=True, numerator=None, bound=False, denominator='A + L2 + x', weights=None, cohort=True)
+            guard(chk, 'IPTW.missing_model', cfg, rec, ipmw_outcome_cell, drv, df, cfg, None, ('mixed', gspec['seed']), rec)
+        chk.count('IPTW/cohort-size/n>=4000')
     # outcome missingness weights
     for i in range(4 if tier == 'quick' else 16):
         df = relabel(mixed_dataset(rng, missing=True), rng, ['shuffled', 'default', 'shifted'][i % 3])
@@ -517,6 +662,15 @@ def run_iptw_family(chk, drv, rng, tier):
                 cfg = dict(stabilized=stab, numerator=numer, bound=bound, denominator='A + L2 + x',
                            weights=[None, 'w', 'wf'][i % 3])
                 guard(chk, 'IPTW.missing_model', cfg, rec, ipmw_outcome_cell, drv, df, cfg, None, frame_hash(df), rec)
+        # the spellings of `bound` for the missing-outcome model (limits from the observed proportion's neighbourhood)
+        forms = bound_forms(rng, np.clip(df['Y'].notna().mean() + np.linspace(-0.25, 0.25, 41), 0.03, 0.97))
+        if tier == 'quick':
+            forms = forms[i % 3::3]
+        for j, (bvals, form) in enumerate(forms):
+            stab, numer = ((False, None), (True, None), (True, 'A + L2'))[(i + j) % 3]
+            cfg = dict(stabilized=stab, numerator=numer, bound=bvals, bound_form=form, bound_kind=bound_kind(bvals, form),
+                       denominator='A + L2 + x', weights=[None, 'w', 'wf'][(i + j) % 3])
+            guard(chk, 'IPTW.missing_model', cfg, rec, ipmw_outcome_cell, drv, df, cfg, None, frame_hash(df), rec)
 
 
 # ------------------------------------------------------------------------------------------- IPMW
@@ -524,8 +678,8 @@ PATTERNS = {1: [()], 2: [('S',), ('U',)], 3: [('S', 'S'), ('S', 'U'), ('U', 'S')
 VARS = ['B', 'C', 'D']
 
 
-def monotone_dataset(rng, k, pattern):
-    n = int(rng.integers(200, 420))
+def monotone_dataset(rng, k, pattern, n=None):
+    n = int(rng.integers(200, 420)) if n is None else n
     L = rng.integers(0, 2, size=n)
     x = np.round(rng.normal(size=n), 3)
     df = pd.DataFrame({'L': L, 'x': x})
@@ -712,6 +866,19 @@ def run_ipmw(chk, drv, rng, tier):
                             cfg = dict(k=k, pattern=list(pattern), stabilized=stab, denominators=md, numerators=mn,
                                        single=single, index=how, positional=bool(t % 3 == 0))
                             guard(chk, 'IPMW', cfg, rec, ipmw_cell, drv, df, cfg, frame_hash(df), rec)
+    # ordinary cohort size (regenerated from the stored recipe on replay)
+    for i in range(1 if tier == 'quick' else 4):
+        pattern = [('S', 'S'), ('S', 'U'), ('U', 'S'), ('S', 'S')][i]
+        gspec = dict(name='monotone', seed=int(rng.integers(0, 2 ** 31 - 1)), n=int(rng.integers(4000, 9000)), k=3,
+                     pattern=list(pattern), index=['shifted', 'default', 'shuffled'][i % 3],
+                     layout_seed=int(rng.integers(0, 2 ** 31 - 1)))
+        df = from_generator(gspec)
+        rec = {'generator': gspec, 'n': len(df)}
+        for stab in (True, False):
+            cfg = dict(k=3, pattern=list(pattern), stabilized=stab, denominators=['L + x', 'L + B', 'x + C'],
+                       numerators=['1', 'L', 'L'], single=False, index=gspec['index'], positional=False, cohort=True)
+            guard(chk, 'IPMW', cfg, rec, ipmw_cell, drv, df, cfg, ('monotone', repr(sorted(gspec.items()))), rec)
+        chk.count('IPMW/cohort-size/n>=4000')
     ipmw_malformed(chk, drv, rng)
 
 
@@ -741,6 +908,46 @@ def long_dataset(rng, frac_last=True, frac_max=False):
         extra = [(i, float(t) if t < tau else tend, 0, L, float(np.round(rng.normal(), 3))) for t in range(1, tau + 1)]
         df = pd.concat([df, pd.DataFrame(extra, columns=df.columns)], ignore_index=True)
     return df.sort_values(['id', 't']).reset_index(drop=True)
+
+
+def cohort_dataset(seed, nsub, tau, cens, ev, ids='consecutive'):
+    """a long person-period table of ORDINARY COHORT SIZE (thousands of subjects, of the order of 10^4 rows), generated
+    from its own seed so that a replay regenerates it instead of storing it: per unit interval an event with
+    probability `ev`, otherwise drop-out with a probability around `cens` that depends on a baseline covariate, a
+    time-varying covariate and time; everybody still followed at `tau` is administratively censored there.  Same
+    columns as long_dataset (id, t, d, L, x)."""
+    g = np.random.default_rng(seed)
+    L = g.integers(0, 2, size=nsub)
+    z = g.normal(size=nsub)
+    tt = np.arange(1, tau + 1)
+    x = np.round(0.3 * z[:, None] + 0.2 * L[:, None] + 0.1 * tt[None, :] + g.normal(0, 0.8, size=(nsub, tau)), 3)
+    hc = 1 / (1 + np.exp(-(np.log(cens / (1 - cens)) + 0.5 * (L[:, None] - 0.5) + 0.4 * (x - 0.4) + 0.06 * (tt[None, :] - 3))))
+    event = g.uniform(size=(nsub, tau)) < ev
+    stop = event | (g.uniform(size=(nsub, tau)) < hc)
+    stop[:, -1] = True
+    last = np.argmax(stop, axis=1)                       # index of the last interval a subject is followed
+    keep = tt[None, :] - 1 <= last[:, None]
+    sid = np.arange(1, nsub + 1) if ids == 'consecutive' else np.sort(g.choice(np.arange(1, 50 * nsub), size=nsub, replace=False))
+    r, c = np.nonzero(keep)
+    df = pd.DataFrame({'id': sid[r].astype(int), 't': tt[c].astype(float), 'd': (event[r, c] & (c == last[r])).astype(int),
+                       'L': L[r].astype(int), 'x': x[r, c]})
+    return df.sort_values(['id', 't']).reset_index(drop=True)
+
+
+def from_generator(g):
+    """regenerate a data set that was too large to be stored in a case record from the recipe stored instead"""
+    if g['name'] == 'cohort':
+        df = cohort_dataset(**g['args'])
+    elif g['name'] == 'mixed':
+        df = mixed_dataset(np.random.default_rng(g['seed']), missing=g.get('missing', False), n=g['n'])
+    elif g['name'] == 'monotone':
+        df = monotone_dataset(np.random.default_rng(g['seed']), g['k'], tuple(g['pattern']), n=g['n'])
+    else:
+        raise ValueError('unknown generator %r' % (g['name'],))
+    r2 = np.random.default_rng(g.get('layout_seed', 0))
+    if g.get('order') == 'shuffled':
+        df = df.iloc[r2.permutation(len(df))].reset_index(drop=True)
+    return relabel(df, r2, g.get('index', 'default'))
 
 
 def uncensored_documented(df):
@@ -775,6 +982,10 @@ def ipcw_cell(chk, drv, df, cfg, dsid, rec):
         return
     pn = pd.Series(np.asarray(mn.predict(d2)), index=df.index)
     pdn = pd.Series(np.asarray(md.predict(d2)), index=df.index)
+    if cfg.get('cohort'):
+        expo = float(-np.log(pn.values).sum())       # minus the log of the product of ALL numerator probabilities
+        chk.count('IPCW/cohort/product of all %s numerator probabilities %s'
+                  % ('>= 10^4' if len(df) >= 10000 else '< 10^4', 'below the smallest double' if expo > 745 else 'representable'))
     ipc.regression_models(cfg['denominator'], cfg['numerator'], print_results=False)
     ipc.fit()
     got = ipc.Weight
@@ -941,6 +1152,22 @@ def run_ipcw(chk, drv, rng, tier):
                 cfg = dict(order=order, index=how, denominator='t + L + x', numerator='t', positional=bool(i % 2),
                            fractional_max=bool(i % 2 == 1))
                 guard(chk, 'IPCW', cfg, rec, ipcw_cell, drv, df, cfg, frame_hash(df), rec)
+    # a cohort of ordinary size (thousands of subjects, 10^4 and more person-period rows; one in the quick tier): the
+    # documented weight is a product of at most `tau` factors per subject, whatever the number of subjects, while any
+    # quantity accumulated over the whole frame (a running product, a sum of logs, a float32 buffer) degrades with it.
+    # The frame is regenerated from the stored recipe on replay.
+    for i in range(1 if tier == 'quick' else 5):
+        args = dict(seed=int(rng.integers(0, 2 ** 31 - 1)), nsub=int(rng.integers(3000, 4000)) * (3 if i >= 3 else 1),
+                    tau=int(rng.integers(5, 9)), cens=float(np.round(rng.uniform(0.09, 0.14), 3)),
+                    ev=float(np.round(rng.uniform(0.02, 0.05), 3)), ids=['consecutive', 'sparse'][int(rng.integers(0, 2))])
+        gspec = dict(name='cohort', args=args, order=['shuffled', 'sorted'][int(rng.integers(0, 2))],
+                     index=['default', 'shifted', 'shuffled'][int(rng.integers(0, 3))],
+                     layout_seed=int(rng.integers(0, 2 ** 31 - 1)))
+        df = from_generator(gspec)
+        rec = {'generator': gspec, 'rows': len(df)}
+        cfg = dict(order=gspec['order'], index=gspec['index'], denominator='t + L + x', numerator='t', positional=False,
+                   fractional_max=False, cohort=True)
+        guard(chk, 'IPCW', cfg, rec, ipcw_cell, drv, df, cfg, ('cohort', repr(sorted(gspec.items(), key=str))), rec)
     for i in range(6 if tier == 'quick' else 30):
         how = ['default', 'shifted', 'shuffled'][i % 3]
         df = relabel(flat_dataset(rng, frac_max=(i % 2 == 0)), rng, how)
@@ -975,10 +1202,13 @@ def replay(rec):
         print('replaying:', f['what'])
         print('  kind=%s cfg=%s' % (c.get('kind'), c.get('cfg')))
         data = c.get('data', {})
-        if 'frame' not in data or 'columns' not in data['frame']:
+        if 'generator' in data:
+            df = from_generator(data['generator'])       # too large to store: regenerated from its recipe
+        elif 'frame' not in data or 'columns' not in data['frame']:
             print('  (data set too large to be stored; rerun with the recorded seed)')
             continue
-        df = _frame(data)
+        else:
+            df = _frame(data)
         cfg = c.get('cfg', {})
         with common.quiet():
             kind = c.get('kind')
